@@ -753,6 +753,120 @@ theorem profile_any_not_refused_counterexample :
   revert this
   decide
 
+/-! ## Round 5: the allowlist seen through the middleware -/
+
+/-- **allowlisted_served_unless_profile_limit_partial.** Through the middleware, on a rate-limited
+protocol, an allowlisted client (no ANY refusal in play) is never dropped — whatever the state of the
+global limiter, also when its subnet is over the limit or in backoff — and leaves the global limiter
+untouched, EXCEPT when the client's profile has its own limit that covers the client and is exhausted
+(`check = drop`).  Partial: the statement's two clauses ("allowlisted clients are never dropped", "a
+profile's own limit applies instead of the global one") overlap for such a client; the code lets the
+profile's limit win (see the counter-example to the literal reading below). -/
+theorem allowlisted_served_unless_profile_limit_partial (c : Cfg) (m : MwSt) (now tick : Int)
+    (a : Addr) (q : Nat) (rl : Option Nat) (hal : allowed c a = true)
+    (hq : ¬ (c.refuseAny = true ∧ q = qtypeANY))
+    (hp : ∀ p, m.prof = some p → (p.check now a).2 ≠ .drop) :
+    (serve c true m now tick a q rl).2 ≠ .dropped ∧ (serve c true m now tick a q rl).1.glob = m.glob := by
+  have hg : ∀ g, isRateLimited c g now a q = (g, .allowlisted) :=
+    fun g => allowlisted_never_dropped c g now a q hal hq
+  unfold serve
+  simp only [Bool.not_true, Bool.false_eq_true, if_false]
+  cases hm : m.prof with
+  | none => simp [serveGlobal, hg]
+  | some p =>
+    have hp' := hp p hm
+    rcases hc : p.check now a with ⟨p', res⟩
+    rw [hc] at hp'
+    cases res
+    · cases rl <;> simp [hc]
+    · exact absurd rfl hp'
+    · simp [hc, serveGlobal, hg]
+
+example : allowed exCfg { is4 := true, val := 167838211 } = true ∧
+    ¬ (exCfg.refuseAny = true ∧ 1 = qtypeANY) ∧
+    (∀ p, (⟨St.empty, some ⟨[], Counter.new 5 1000000000, 100⟩⟩ : MwSt).prof = some p →
+      (p.check 1 { is4 := true, val := 167838211 }).2 ≠ .drop) := by
+  refine ⟨by decide, by decide, ?_⟩
+  intro p hp
+  cases hp
+  decide
+
+/-- **allowlisted_profile_client_dropped_counterexample.** Read literally ("allowlisted clients are
+otherwise never dropped by the limiter") the clause does not hold through the middleware: an allowlisted
+client whose profile has its own limit of 0 (or any exhausted limit) covering it is dropped, because the
+profile's limiter is asked first and the allowlist lives in the global limiter only.  The code resolves
+the overlap of the two clauses in favour of "a profile's own limit applies instead of the global one". -/
+theorem allowlisted_profile_client_dropped_counterexample :
+    ¬ ∀ (c : Cfg) (m : MwSt) (now tick : Int) (a : Addr) (q : Nat) (rl : Option Nat),
+      allowed c a = true → ¬ (c.refuseAny = true ∧ q = qtypeANY) →
+      (serve c true m now tick a q rl).2 ≠ .dropped := by
+  intro h
+  have := h exCfg ⟨St.empty, some ⟨[], Counter.new 0 1000000000, 100⟩⟩ 1 1
+    { is4 := true, val := 167838211 } 1 none (by decide) (by decide)
+  revert this
+  decide
+
+/-- **allowlisted_clients_are_transparent.** Over ANY request history through the middleware, from any
+state (no clock discipline needed): every request of an allowlisted client without a profile over plain
+DNS (ANY under refusal excepted) is served, and deleting all those requests from the history changes
+nothing for anybody else — the effects at the remaining positions are exactly the effects of the history
+without them.  Allowlisted traffic neither is dropped nor uses up anyone's window, backoff or profile
+limit, however much of it there is. -/
+theorem allowlisted_clients_are_transparent (c : Cfg) :
+    ∀ (reqs : List MReq) (h : HSt),
+      mwRun c h (reqs.filter (fun r => !transparent c r)) =
+        ((reqs.zip (mwRun c h reqs)).filter (fun p => !transparent c p.1)).map (·.2) ∧
+      ∀ p ∈ reqs.zip (mwRun c h reqs), transparent c p.1 = true → p.2 = .servedNoCount := by
+  intro reqs
+  induction reqs with
+  | nil => intro h; simp [mwRun]
+  | cons r rest ih =>
+    intro h
+    by_cases ht : transparent c r = true
+    · have hs := mwStep_transparent c h r ht
+      have ih' := ih h
+      simp only [mwRun, hs, List.zip_cons_cons, List.filter_cons, ht, Bool.not_true,
+        Bool.false_eq_true, if_false]
+      refine ⟨ih'.1, ?_⟩
+      intro p hp
+      rcases List.mem_cons.mp hp with rfl | hp
+      · intro _; rfl
+      · exact ih'.2 p hp
+    · have ht' : transparent c r = false := by simpa using ht
+      have ih' := ih (mwStep c h r).1
+      simp only [mwRun, List.zip_cons_cons, List.filter_cons, ht', Bool.not_false, if_true,
+        List.map_cons]
+      refine ⟨by rw [ih'.1], ?_⟩
+      intro p hp
+      rcases List.mem_cons.mp hp with rfl | hp
+      · intro h2; simp [ht'] at h2
+      · exact ih'.2 p hp
+
+example : exReqs.any (transparent exCfgH) = true ∧ exReqs.any (fun r => !transparent exCfgH r) = true := by
+  decide
+
+/-- **burst_passes_exactly_limit.** Magnitudes: on the real ring buffer of `num + 1` slots, of `n` events
+at one instant `t` (a burst inside one window, any window length) the `i`-th is reported "above" iff
+`num ≤ i` — exactly the first `num` pass, however large `num` and `n` are, and the number that pass is
+`min n num`.  This is the oracle of the `big` campaign (limits of 255 … 131073) as a theorem. -/
+theorem burst_passes_exactly_limit (num : Nat) (ivl t : Int) (n : Nat) (ht : 0 < t) (hivl : 0 ≤ ivl) :
+    ringRun ivl (Ring.new (num + 1)) (List.replicate n t) = (List.range n).map (fun i => decide (num ≤ i)) ∧
+    ((ringRun ivl (Ring.new (num + 1)) (List.replicate n t)).filter (fun b => !b)).length = min n num := by
+  have h : ringRun ivl (Ring.new (num + 1)) (List.replicate n t) =
+      (List.range n).map (fun i => decide (num ≤ i)) := by
+    rw [ring_refines_history]
+    have := ctrRun_burst num ivl t ht hivl n 0
+    simpa [Counter.new, List.range_eq_range'] using this
+  refine ⟨h, ?_⟩
+  rw [h, List.filter_map, List.length_map]
+  exact count_below num n
+
+example : ringRun 1000000000 (Ring.new (65537 + 1)) (List.replicate 3 5) = [false, false, false] ∧
+    (0 : Int) < 5 ∧ (0 : Int) ≤ 1000000000 := by
+  refine ⟨?_, by decide, by decide⟩
+  rw [(burst_passes_exactly_limit 65537 1000000000 5 3 (by decide) (by decide)).1]
+  decide
+
 /-! ## Round 4: the answers `Wrap` gives in front of the limiter -/
 
 /-- **early_answers_are_rate_limited.** Whole histories through the repaired `ratelimitmw.Middleware.Wrap`
@@ -839,6 +953,10 @@ end Agd.Ratelimit
 #print axioms Agd.Ratelimit.zoned_profile_subnet_prefix_counterexample
 #print axioms Agd.Ratelimit.refuse_any_unless_profile_limit_partial
 #print axioms Agd.Ratelimit.profile_any_not_refused_counterexample
+#print axioms Agd.Ratelimit.allowlisted_served_unless_profile_limit_partial
+#print axioms Agd.Ratelimit.allowlisted_profile_client_dropped_counterexample
+#print axioms Agd.Ratelimit.burst_passes_exactly_limit
+#print axioms Agd.Ratelimit.allowlisted_clients_are_transparent
 #print axioms Agd.Tie.TrC09.translation_complete
 #print axioms Agd.Tie.TrC09.backoff_drops_without_counting
 #print axioms Agd.Tie.TrC09.allowlisted_passes_uncounted
